@@ -10,3 +10,4 @@ import SimuVerif.Properties.C10
 import SimuVerif.Properties.C02
 import SimuVerif.Properties.C15
 import SimuVerif.Properties.C14
+import SimuVerif.Properties.C04
